@@ -135,6 +135,16 @@ func howClass(r runRes) string {
 	return "other"
 }
 
+// errLine is the first "Error: …" line of a process's stderr ("" when there is none)
+func errLine(stderr string) string {
+	for _, l := range strings.Split(stderr, "\n") {
+		if strings.HasPrefix(l, "Error: ") {
+			return l
+		}
+	}
+	return ""
+}
+
 func c05Calls(out string) [][]string {
 	calls := [][]string{}
 	for _, l := range strings.Split(out, "\n") {
@@ -227,7 +237,7 @@ func c05(c *Ctx) {
 			errClass = "yes"
 		}
 		in := J{"op": op, "funcs": c05Funcs, "env": mageEnvPairs(runEnv), "argv": argv, "conv": convRecord(argv), "cached": cached, "want": "c05"}
-		impl := J{"status": rr.status, "how": howClass(rr), "calls": c05Calls(rr.stdout), "stderr": errClass}
+		impl := J{"status": rr.status, "how": howClass(rr), "calls": c05Calls(rr.stdout), "stderr": errClass, "errLine": errLine(rr.stderr)}
 		c.Emit(in, impl, append([]string{"way=" + way, fmt.Sprintf("status=%d", rr.status)}, tags...)...)
 	}
 	ways := []string{"mage", "hashfast", "static", "static"}
@@ -324,7 +334,7 @@ func c05(c *Ctx) {
 					errClass = "yes"
 				}
 				in := J{"op": "mage.front", "funcs": []J{{"name": "Build", "args": []string{}}}, "env": mageEnvPairs(runEnv), "argv": argv, "conv": J{}, "fault": b.fault, "want": "c05"}
-				c.Emit(in, J{"status": rr.status, "how": howClass(rr), "calls": [][]string{}, "stderr": errClass}, "class=unbuildable", "fault="+b.fault, "proj="+b.name)
+				c.Emit(in, J{"status": rr.status, "how": howClass(rr), "calls": [][]string{}, "stderr": errClass, "errLine": errLine(rr.stderr)}, "class=unbuildable", "fault="+b.fault, "proj="+b.name)
 			}
 		}
 		os.RemoveAll(d)
@@ -352,7 +362,7 @@ func c05(c *Ctx) {
 				calls = append(calls, []string{"<current>.Build"})
 			}
 			in := J{"op": "mage.front", "funcs": funcs, "env": mageEnvPairs(runEnv), "argv": argv, "conv": J{}, "fault": fault, "want": "c05"}
-			c.Emit(in, J{"status": rr.status, "how": howClass(rr), "calls": calls, "stderr": errClass}, "class=stale-binary", "fault="+fault)
+			c.Emit(in, J{"status": rr.status, "how": howClass(rr), "calls": calls, "stderr": errClass, "errLine": errLine(rr.stderr)}, "class=stale-binary", "fault="+fault)
 		}
 		step("none", nil, "build")
 		step("none", []string{"MAGEFILE_HASHFAST=1"}, "build")
